@@ -492,9 +492,34 @@ func r12_7(c *Ctx, r *Report) {
 	if fn == nil {
 		return
 	}
+	var callsSlot func(f *ssa.Function, depth int) bool
+	callsSlot = func(f *ssa.Function, depth int) bool {
+		if fname(f) == "LunarUtil.GetTimeZhiIndex" {
+			return true
+		}
+		if depth > 2 || f.Pkg == nil || !strings.HasPrefix(f.Pkg.Pkg.Path(), c.ModPath) {
+			return false
+		}
+		for _, b := range f.Blocks {
+			for _, ins := range b.Instrs {
+				if call, ok := ins.(*ssa.Call); ok && call.Common().StaticCallee() != nil && callsSlot(call.Common().StaticCallee(), depth+1) {
+					return true
+				}
+			}
+		}
+		return false
+	}
+	// a slot computation: GetTimeZhiIndex itself or an unexported helper around it taking the moment
 	isSlotCall := func(v ssa.Value) bool {
 		call, ok := v.(*ssa.Call)
-		return ok && call.Common().StaticCallee() != nil && fname(call.Common().StaticCallee()) == "LunarUtil.GetTimeZhiIndex"
+		if !ok || call.Common().StaticCallee() == nil {
+			return false
+		}
+		callee := call.Common().StaticCallee()
+		if fname(callee) == "LunarUtil.GetTimeZhiIndex" {
+			return true
+		}
+		return len(call.Common().Args) == 1 && structName(call.Common().Args[0].Type()) == "Solar" && isIntType(call.Type()) && callsSlot(callee, 0)
 	}
 	var findMoment func(v ssa.Value, depth int) ssa.Value
 	findMoment = func(v ssa.Value, depth int) ssa.Value {
@@ -504,6 +529,9 @@ func r12_7(c *Ctx, r *Report) {
 		switch x := v.(type) {
 		case *ssa.Call:
 			if callee := x.Common().StaticCallee(); callee != nil && (callee.Name() == "ToYmdHms" || callee.Name() == "GetHour" || callee.Name() == "GetMinute") && len(x.Common().Args) == 1 {
+				return x.Common().Args[0]
+			}
+			if isSlotCall(x) && len(x.Common().Args) == 1 && structName(x.Common().Args[0].Type()) == "Solar" {
 				return x.Common().Args[0]
 			}
 			for _, a := range x.Common().Args {
